@@ -164,3 +164,45 @@ Definition render_outcome (o : outcome) : list string :=
   | Panic => ["PANIC"]
   | OutOfFuel => ["OUTOFFUEL"]
   end.
+
+(* ---- documents as S-expressions (same format as harness/src/sx.rs) ---- *)
+Fixpoint x_ty (t : ty) : string :=
+  match t with
+  | TNamed n => n
+  | TList c => "(l " ++ x_ty c ++ ")"
+  | TNonNull c => "(n " ++ x_ty c ++ ")"
+  end.
+Definition x_p (p : pos) : string := s_N (fst p) ++ " " ++ s_N (snd p).
+Definition x_list (l : list string) : string := "(" ++ sep_by " " l ++ ")".
+Definition x_args (a : list argument) : string :=
+  x_list (map (fun kv : argument => "(" ++ fst kv ++ " " ++ s_value (snd kv) ++ ")") a).
+Definition x_dirs (ds : list directive) : string :=
+  x_list (map (fun d => "(d " ++ x_p (d_pos d) ++ " " ++ d_name d ++ " " ++ x_args (d_args d) ++ ")") ds).
+Definition x_span (sp : span) : string := x_p (fst sp) ++ " " ++ x_p (snd sp).
+Fixpoint x_selection (x : selection) : string :=
+  match x with
+  | SField p al n args dirs sp sels =>
+      "(f " ++ x_p p ++ " " ++ s_oname al ++ " " ++ n ++ " " ++ x_args args ++ " " ++ x_dirs dirs ++ " " ++
+      x_span sp ++ " " ++ x_list (map x_selection sels) ++ ")"
+  | SSpread p n dirs => "(s " ++ x_p p ++ " " ++ n ++ " " ++ x_dirs dirs ++ ")"
+  | SInline p tc dirs sp sels =>
+      "(i " ++ x_p p ++ " " ++ s_oname tc ++ " " ++ x_dirs dirs ++ " " ++ x_span sp ++ " " ++
+      x_list (map x_selection sels) ++ ")"
+  end.
+Definition x_vardefs (vs : list vardef) : string :=
+  x_list (map (fun v => "(v " ++ x_p (v_pos v) ++ " " ++ v_name v ++ " " ++ x_ty (v_type v) ++ " " ++
+                        match v_default v with Some dv => "(some " ++ s_value dv ++ ")" | None => "-" end ++ ")") vs).
+Definition x_definition (x : definition) : string :=
+  match x with
+  | DOp o =>
+      match o_kind o with
+      | OpSelSet => "(op sel 0 0 - () () " ++ x_span (o_span o) ++ " " ++ x_list (map x_selection (o_sels o)) ++ ")"
+      | k => "(op " ++ s_kind k ++ " " ++ x_p (o_pos o) ++ " " ++ s_oname (o_name o) ++ " " ++ x_vardefs (o_vars o) ++ " " ++
+             x_dirs (o_dirs o) ++ " " ++ x_span (o_span o) ++ " " ++ x_list (map x_selection (o_sels o)) ++ ")"
+      end
+  | DFrag f =>
+      "(fr " ++ x_p (fr_pos f) ++ " " ++ fr_name f ++ " " ++ fr_tc f ++ " " ++ x_dirs (fr_dirs f) ++ " " ++
+      x_span (fr_span f) ++ " " ++ x_list (map x_selection (fr_sels f)) ++ ")"
+  end.
+Definition x_document (d : document) : string :=
+  match d with [] => "(doc)" | _ => "(doc " ++ sep_by " " (map x_definition d) ++ ")" end.
